@@ -61,6 +61,11 @@ type OutSpec struct {
 	// other not).
 	HasAlt bool
 	Alt    int
+	// Same: the constructor returns for this (interface-typed) output the very
+	// instance it returns for output SameAs - one instance handed back under
+	// two declared types, func() (io.Reader, io.Writer) { return b, b }.
+	Same   bool
+	SameAs int
 }
 
 // DepSpec is one declared dependency.
@@ -167,6 +172,9 @@ func (r Reg) String() string {
 		}
 		if o.Nil {
 			sb.WriteString("=nil")
+		}
+		if o.Same {
+			fmt.Fprintf(&sb, "=the-instance-of-output-%d", o.SameAs)
 		}
 		if o.Key != "" {
 			sb.WriteString(":" + o.Key)
@@ -322,13 +330,21 @@ func (r Reg) AllProvides() []Provided {
 			if i == 0 {
 				id.Key = r.Name
 			}
-			ps = append(ps, Provided{id, i})
+			out := i
+			if o.Same {
+				out = o.SameAs // the identity is served by the instance of that output
+			}
+			ps = append(ps, Provided{id, out})
 		}
 		return ps
 	case FormOut:
 		ps := make([]Provided, 0, len(r.Outs))
 		for i, o := range r.Outs {
-			ps = append(ps, Provided{Ident{T: o.T, Key: o.Key, Group: o.Group}, i})
+			out := i
+			if o.Same {
+				out = o.SameAs
+			}
+			ps = append(ps, Provided{Ident{T: o.T, Key: o.Key, Group: o.Group}, out})
 		}
 		return ps
 	}
